@@ -84,8 +84,8 @@ def s1(ck, an):
     ck.check(okd, "CONST", "S1.default-fold-is-everything", fi.f.short, fi.f.loc, "without folds, the single training fold spans [datetime.min, datetime.max]", "the default fold is not {TRAINING_SET: [datetime.min, datetime.max]}",
              construct="folds = {TRAINING_SET: [datetime.min, datetime.max]}")
     fg = an.fa("PartitionTimeRanges.__getitem__")
-    r = [ast.unparse(x.value) for x in returns_in(fg)]
-    ck.check(r == ["self.folds[item]"], "ARGFLOW", "S1.fold-lookup", fg.f.short, fg.f.loc, "folds are looked up by name", f"__getitem__ returns {r}", construct="return self.folds[item]")
+    r = ret_canons(fg)
+    ck.check(r == [specv(fg, f"self.folds[{fg.f.params[1]}]").key()], "ARGFLOW", "S1.fold-lookup", fg.f.short, fg.f.loc, "folds are looked up by name", f"__getitem__ returns {r}", construct="return self.folds[item]")
 
 
 def s2(ck, an):
